@@ -218,19 +218,19 @@ def run(ctx):
             if ctx.worker == 0:
                 ctx.hit("double_bit_exhaustive_frames")
         else:
-            for _ in range(ctx.n(6000, 80000)):
+            for _ in range(ctx.n(12000, 80000)):
                 a, b = rng.sample(range(nb), 2)
                 if not damaged_case(ctx, fr, (a, b), "double_bit"):
                     return
         # odd weights
-        for _ in range(ctx.n(4000, 60000)):
+        for _ in range(ctx.n(8000, 60000)):
             k = rng.choice((3, 5, 7, 9, 11, 13, 15))
             k = min(k, nb if nb % 2 else nb - 1)
             if not damaged_case(ctx, fr, tuple(sorted(rng.sample(range(nb), k))), "odd"):
                 return
         # bursts
         if ctx.quick:
-            for _ in range(ctx.n(4000, 0)):
+            for _ in range(ctx.n(8000, 0)):
                 blen = rng.randint(2, 24)
                 st = rng.randrange(0, nb - blen + 1)
                 pos = {st, st + blen - 1} | {i for i in range(st + 1, st + blen - 1) if rng.random() < 0.5}
@@ -276,7 +276,7 @@ def run(ctx):
     # crafted "nested" frames: the payload carries, at the offset a SHORTER length field would point to,
     # the CRC of the frame shortened to that length; flipping that one length bit (a guaranteed-detectable
     # single-bit error) yields "valid shorter frame + trailing bytes", which must still be rejected
-    for it in range(ctx.n(400, 8000)):
+    for it in range(ctx.n(1200, 8000)):
         L = rng.choice((19, 83, 130, 255, 256, 300, 511, 512, 700, 1023, rng.randint(8, 1023)))
         bits = [b for b in range(10) if (L >> b) & 1 and (L ^ (1 << b)) >= 2 and (L ^ (1 << b)) + 3 <= L]
         if not bits:
